@@ -444,6 +444,7 @@ type c09roundResult struct {
 	Scenario     *gen.Scenario    `json:"scenario,omitempty"`
 	Scripts      []map[string]any `json:"scripts,omitempty"`
 	Planted      string           `json:"planted,omitempty"`
+	ColdLoad     *coldLoadResult  `json:"cold_load,omitempty"`
 }
 
 // c09child: vcheck-race c09child <seed> <child-index> <rounds> <maxN> <jitter 0|1> <out.json>
@@ -625,6 +626,8 @@ func c09child(args []string) int {
 				rr.Scripts = append(rr.Scripts, map[string]any{"flow": scripts[g].flowIdx, "ops": scripts[g].ops, "trigger": scripts[g].trigger, "resumes": scripts[g].resumes})
 			}
 		}
+		// the cold-load clause (its own assets and one shared counting UUID source; after the session phase of the round)
+		rr.ColdLoad = coldLoad(r.Fork("coldload"), seed, n)
 		results = append(results, rr)
 	}
 	b, _ := json.Marshal(results)
@@ -689,7 +692,8 @@ func (p *c09) RunCustom(o *fw.Orchestrator) {
 	raceReports := 0
 	ops := map[string]int{}
 	interleavings := map[string]bool{}
-	var nRounds, nGoroutinesMax, overlapRounds, coldCollisions, discarded, panicsSeen, planted int
+	var nRounds, nGoroutinesMax, overlapRounds, coldCollisions, discarded, panicsSeen, planted, coldRounds, coldFlows, coldDistinct, coldReread int
+	var coldDraws int64
 	panicKinds := map[string]bool{}
 	procsSeen := map[int]bool{}
 	sem := make(chan struct{}, par)
@@ -779,6 +783,22 @@ func (p *c09) RunCustom(o *fw.Orchestrator) {
 						fmt.Sprintf("goroutine %v produced a different transcript concurrently than alone: first difference %v", m["goroutine"], m["what"]),
 						map[string]any{"mismatch": m, "scenario": rr.Scenario, "scripts": rr.Scripts, "goroutines": rr.N, "gomaxprocs": j.procs})
 				}
+				if cl := rr.ColdLoad; cl != nil {
+					coldRounds++
+					coldFlows += cl.Flows
+					coldDraws += cl.DrawsTogether
+					if cl.DistinctObject {
+						coldDistinct++
+					}
+					if cl.AskedTogether != cl.AskedSolo {
+						coldReread++
+					}
+					if cl.DrawsTogether != cl.DrawsSolo {
+						o.Violation(fmt.Sprintf("child%d/round%d", j.idx, rr.Round), j.idx*1000+rr.Round, "C09|cold-load|uuid-draws-differ",
+							fmt.Sprintf("%d goroutines asking for %d lazily migrated flows at once drew %d values from the shared UUID source; one goroutine draws %d (the source was read %d vs %d times): every later session sees other UUIDs than it sees when run alone", cl.Goroutines, cl.Flows, cl.DrawsTogether, cl.DrawsSolo, cl.AskedTogether, cl.AskedSolo),
+							map[string]any{"cold_load": cl})
+					}
+				}
 				for _, cd := range rr.CanaryDiffs {
 					o.Violation(fmt.Sprintf("child%d/round%d", j.idx, rr.Round), j.idx*1000+rr.Round, "global-overwrite|"+cd,
 						"a process global / shared asset changed during a concurrent round: "+cd, map[string]any{"scenario": rr.Scenario, "scripts": rr.Scripts})
@@ -804,6 +824,11 @@ func (p *c09) RunCustom(o *fw.Orchestrator) {
 	}
 	o.Sum.Counters["rounds"] = int64(nRounds)
 	o.Sum.Counters["rounds_with_planted_bare_json_webhook"] = int64(planted)
+	o.Sum.Counters["clause.cold_load_rounds"] = int64(coldRounds)
+	o.Sum.Counters["cold_load.flows_loaded_concurrently"] = int64(coldFlows)
+	o.Sum.Counters["cold_load.uuid_draws"] = coldDraws
+	o.Sum.Counters["cold_load.rounds_with_distinct_flow_objects(observation)"] = int64(coldDistinct)
+	o.Sum.Counters["cold_load.rounds_with_repeated_source_reads(observation)"] = int64(coldReread)
 	o.Sum.Counters["rounds_with_overlap_on_shared_flow"] = int64(overlapRounds)
 	o.Sum.Counters["cold_first_access_collisions"] = int64(coldCollisions)
 	o.Sum.Counters["race_reports"] = int64(raceReports)
